@@ -5,3 +5,10 @@ cd "$(dirname "$0")"
 . ./env.sh
 mkdir -p bin evidence replays
 go build -o bin/vxform ./tools/vxform
+# warm the build cache: instrumented checker and plain checker
+T=$(mktemp -d /tmp/verif-setup.XXXXXX)
+bin/vxform -repo "${VERIF_REPO:-/repo}" -out "$T/x" -vrt "$PWD/vrt"
+go build -overlay "$T/x/overlay.json" -o "$T/vschk" ./cmd/vschk
+[ -d cmd/sqchk ] && go build -o "$T/sqchk" ./cmd/sqchk
+rm -rf "$T"
+echo setup ok
